@@ -480,3 +480,53 @@ Proof.
   - intros [it [Hin Hi]]. apply in_map_iff in Hin as [s [<- Hs]]. exists s. auto.
   - intros [s [Hs Hi]]. exists (sitem_den s). split; [apply in_map; exact Hs|exact Hi].
 Qed.
+
+(* ---------- printing a range and reading the text again (Range.__str__, Model/RangeStr.v) *)
+From CP Require Import Model.RangeStr.
+Definition sitem_of (it : item) : sitem :=
+  match it with
+  | (Some a, Some b) => if a =? b then SSingle a else SClosed a SDots b
+  | (Some a, None) => SFrom a SDots
+  | (None, Some b) => SUpTo SDots b
+  | (None, None) => SSingle 0
+  end.
+Definition limited (it : item) : Prop := it <> (None, None).
+Lemma item_str_sitem it : limited it -> item_str it = sitem_text sep_text (sitem_of it).
+Proof.
+  destruct it as [[a|] [b|]]; intros H; cbn [item_str sitem_of]; try reflexivity.
+  - destruct (a =? b); reflexivity.
+  - exfalso. apply H. reflexivity.
+Qed.
+Lemma items_str_desc its : Forall limited its -> items_str its = desc_text sep_text (map sitem_of its).
+Proof.
+  induction its as [|it rest IH]; intros H; [reflexivity|]. inversion H; subst.
+  destruct rest as [|it2 rest']; cbn [items_str map desc_text].
+  - apply item_str_sitem. assumption.
+  - rewrite item_str_sitem by assumption. f_equal. f_equal. apply IH. assumption.
+Qed.
+Lemma sitem_of_den it : limited it -> sitem_den (sitem_of it) = it.
+Proof.
+  destruct it as [[a|] [b|]]; intros H; cbn [sitem_of]; try reflexivity.
+  - destruct (a =? b) eqn:E; cbn [sitem_den]; [apply Z.eqb_eq in E; subst; reflexivity|reflexivity].
+  - exfalso. apply H. reflexivity.
+Qed.
+Lemma sitem_of_ordered it : (match it with (Some a, Some b) => a <= b | _ => True end) -> sitem_ordered (sitem_of it).
+Proof. destruct it as [[a|] [b|]]; cbn [sitem_of]; intros H; try exact I. destruct (a =? b); cbn; auto. Qed.
+
+(* the text a range prints for itself is a description of exactly that range: for every range with at least one item,
+   whose items have a limit, are ordered and do not overlap (what Range.__init__ produces), reading the printed text
+   gives the same items back *)
+Theorem printed_range_reads_back its : its <> [] -> Forall limited its ->
+  Forall (fun it => match it with (Some a, Some b) => a <= b | _ => True end) its -> no_overlap [] its ->
+  range_of_text (range_str (Some its)) = POk (Some its).
+Proof.
+  intros Hne Hl Ho Hov.
+  assert (M : map sitem_den (map sitem_of its) = its).
+  { rewrite map_map. rewrite <- (map_id its) at 2. apply map_ext_in. intros it Hin. apply sitem_of_den. rewrite Forall_forall in Hl. auto. }
+  destruct its as [|it0 rest]; [congruence|]. cbn [range_str]. rewrite items_str_desc by assumption.
+  rewrite range_of_written_description.
+  - rewrite M. reflexivity.
+  - discriminate.
+  - apply Forall_forall. intros s Hs. apply in_map_iff in Hs as [it [<- Hin]]. apply sitem_of_ordered. rewrite Forall_forall in Ho. apply Ho. exact Hin.
+  - rewrite M. exact Hov.
+Qed.
